@@ -270,3 +270,24 @@ mutant("C11-M14", "C11", "R11d", "coverage overwrite dt factor dropped", PR, "Pr
 twin("C11-T1", "C11", "np.clip(x, None, 1.0)", PR, "ProgramSet.get_prop_coverage", "prop_coverage[prog.name] = np.minimum(prop_coverage[prog.name], 1.0)", "prop_coverage[prog.name] = np.clip(prop_coverage[prog.name], None, 1.0)")
 twin("C11-T2", "C11", "dt * spending / unit_cost", PR, "Program.get_capacity", "            spending *= dt\n\n        capacity = spending / unit_cost", "            spending = dt * spending\n\n        capacity = (1 / unit_cost) * spending")
 twin("C11-T3", "C11", "cap with arguments swapped", PR, "Program.get_capacity", "capacity = np.minimum(capacity_constraint, capacity)", "capacity = np.minimum(capacity, capacity_constraint)")
+
+# =============================================================================================== C12
+mutant("C12-M1", "C12", "R12a", "coverage vector built from self.progs", PR, "Covout.get_outcome", "        for prog in self._cached_progs.keys():\n            cov.append(prop_covered[prog][0])", "        for prog in self.progs.keys():\n            cov.append(prop_covered[prog][0])")
+mutant("C12-M2", "C12", "R12b", "constructor accepts a fourth kind", PR, "Covout.__init__", "assert cov_interaction in [\"additive\", \"random\", \"nested\"]", "assert cov_interaction in [\"additive\", \"random\", \"nested\", \"synergistic\"]")
+mutant(
+    "C12-M3",
+    "C12",
+    "R12c",
+    "'best' fallback before the explicit lookup",
+    PR,
+    "Covout.compute_impact_interaction",
+    "        if progs_active in self._interactions:\n            # If the combination of programs has an explicitly specified outcome, then use it\n            return self._interactions[progs_active]\n        elif self.imp_interaction is not None",
+    "        if len(self._deltas[progs]) == 1:\n            return self._deltas[progs][0]\n        if progs_active in self._interactions:\n            return self._interactions[progs_active]\n        elif self.imp_interaction is not None",
+)
+mutant("C12-M4", "C12", "R12a", "_deltas built from the unsorted dict", PR, "Covout.update_outcomes", "self._deltas = np.array([x[1] - self.baseline for x in prog_tuple])", "self._deltas = np.array([x - self.baseline for x in self.progs.values()])")
+mutant("C12-M5", "C12", "R12d", "random branch drops the baseline", PR, "Covout.get_outcome", "            outcome += np.sum(combination_coverage.ravel() * self._combination_outcomes.ravel())", "            outcome = np.sum(combination_coverage.ravel() * self._combination_outcomes.ravel())")
+mutant("C12-M6", "C12", "R12e", "explicit interaction outcomes not relative to baseline", PR, "Covout.__init__", "self._interactions[combo] = float(val) - self.baseline", "self._interactions[combo] = float(val)")
+mutant("C12-M7", "C12", "R12d", "single program returns the raw outcome", PR, "Covout.get_outcome", "return outcome + prop_covered[self._cached_progs.keys()[0]][0] * self._deltas[0]", "return prop_covered[self._cached_progs.keys()[0]][0] * self._deltas[0]")
+mutant("C12-M8", "C12", "R12b", "nested branch removed", PR, "Covout.get_outcome", "elif self.cov_interaction == \"nested\":", "elif self.cov_interaction == \"nested_disabled\":")
+twin("C12-T1", "C12", "list(self._cached_progs) iteration", PR, "Covout.get_outcome", "        for prog in self._cached_progs.keys():", "        for prog in self._cached_progs:")
+twin("C12-T2", "C12", "len(self.progs) still allowed", PR, "Covout.get_outcome", "        if self.n_progs == 0:", "        n_defined = len(self.progs)\n        if self.n_progs == 0:")
